@@ -2,7 +2,7 @@ import math
 from dataclasses import dataclass
 
 from scipy.interpolate import interp1d
-from scipy.special import hyp1f1
+from scipy.special import hyp1f1, gammainc, gammaln
 from cached_property import cached_property
 
 import numpy as np
@@ -162,10 +162,28 @@ class ComplexWatson(_ProbabilisticModel):
 
         # With scale > 800 this function makes problems.
         # Normally scale is thresholded by 100
-        norm = hyp1f1(1, dimension, scale) * (
-            2 * np.pi ** dimension / math.factorial(dimension - 1)
-        )
-        return np.log(norm)
+        with np.errstate(over='ignore'):
+            norm = hyp1f1(1, dimension, scale) * (
+                2 * np.pi ** dimension / math.factorial(dimension - 1)
+            )
+            log_norm = np.log(norm)
+
+        # hyp1f1 overflows for a scale above ~700. For a large scale use
+        # 1F1(1, D, x) = (D-1)! exp(x) x^(1-D) P(D-1, x), where P is the
+        # regularized lower incomplete gamma function.
+        large = np.asarray(scale) > 100
+        if np.any(large):
+            x = np.where(large, scale, 100.)
+            log_norm = np.where(
+                large,
+                (
+                    np.log(2) + dimension * np.log(np.pi)
+                    + x - (dimension - 1) * np.log(x)
+                    + np.log(gammainc(dimension - 1, x))
+                ),
+                log_norm,
+            )[()]
+        return log_norm
 
     @staticmethod
     def log_norm_tran_vu(scale, dimension):
@@ -256,9 +274,28 @@ class ComplexWatsonTrainer:
         )
 
     def hypergeometric_ratio(self, concentration):
-        eigenvalue = hyp1f1(2, self.dimension + 1, concentration) / (
-            self.dimension * hyp1f1(1, self.dimension, concentration)
-        )
+        with np.errstate(over='ignore', invalid='ignore'):
+            eigenvalue = hyp1f1(2, self.dimension + 1, concentration) / (
+                self.dimension * hyp1f1(1, self.dimension, concentration)
+            )
+
+        # hyp1f1 overflows for a concentration above ~700 (inf / inf). The
+        # ratio is the derivative of log 1F1(1, D, x). For a large
+        # concentration use the closed form of 1F1(1, D, x), see log_norm_1f1.
+        large = np.asarray(concentration) > 100
+        if np.any(large):
+            D = self.dimension
+            x = np.where(large, concentration, 100.)
+            eigenvalue = np.where(
+                large,
+                (
+                    1 - (D - 1) / x
+                    + np.exp(
+                        (D - 2) * np.log(x) - x - gammaln(D - 1)
+                    ) / gammainc(D - 1, x)
+                ),
+                eigenvalue,
+            )[()]
         return eigenvalue
 
     def hypergeometric_ratio_inverse(self, eigenvalues):
